@@ -92,7 +92,7 @@ __CPROVER_requires(VC_BN_FRESH(a))
 __CPROVER_requires(VC_REQ3_B(VC_SHAPE_bn_mul_comba, a, b))
 __CPROVER_requires(VC_REQ3_C(VC_SHAPE_bn_mul_comba, c, a, b))
 __CPROVER_requires(VC_BN_NF(a) && VC_BN_NF(b) && VC_BN_OUT(c))
-__CPROVER_requires(a->used + b->used <= RLC_BN_SIZE || g_may_throw)
+__CPROVER_requires(a->used + b->used <= VC_COMBA_MAX)      /* bounded: the product-scanning kernels are discharged up to this total length only */
 VC_ASSIGNS(__CPROVER_object_whole(c), g_ctx.code, g_ctx.last, g_ctx.caught, g_ctx.error, g_ctx.number, g_thrown)
 __CPROVER_ensures(g_ctx.code == __CPROVER_old(g_ctx.code) && g_ctx.last == __CPROVER_old(g_ctx.last))
 __CPROVER_ensures(VC_BN_NF(c) && (c->sign == (__CPROVER_old(a->sign) ^ __CPROVER_old(b->sign)) || vc_mag(c) == 0))
